@@ -64,10 +64,10 @@ theorem C03_tema (a v : K) (xs : List K) :
   TEMA.run_spec a v xs
 
 /-- windowless Integral: the cumulative sum of everything fed -/
-theorem C03_integral0 {P : Nat} (v : K) (xs : List K) :
+theorem C03_integral0 {P : Nat} (hP : 0 < P) (v : K) (xs : List K) :
     ∃ s0 outs s', Integral.new P 0 v = .ok s0 ∧ runM Integral.next s0 xs = .ok (outs, s') ∧
       outs.length = xs.length ∧ ∀ i (hi : i < outs.length), outs[i] = Spec.integral0 (xs.take (i + 1)) :=
-  Integral.spec0 v xs
+  Integral.spec0 hP v xs
 
 /-- TR: single-subtraction true range against the previous close, which is then replaced -/
 theorem C03_tr (s : TR K) (c : Candle K) :
